@@ -67,8 +67,17 @@ def edge_family(case):
 
 def run_case(case, ctx):
     fam = edge_family(case)
-    ms_, excl = case["min_size"], case["excl"]
     H = xgi.Hypergraph([sorted(e) for e in fam])
+    _evaluate(H, case, ctx)
+    # the same object after a small in-place edit (still without repeated edges): everything is enumerated and compared again
+    if nets.small_edit(H, no_duplicates=True) is not None and not any(len(m) == 0 for m in H.edges.members()):
+        ctx.event("re-evaluated-after-edit")
+        _evaluate(H, case, ctx)
+
+
+def _evaluate(H, case, ctx):
+    ms_, excl = case["min_size"], case["excl"]
+    fam = [frozenset(m) for m in H.edges.members()]
     es = set(fam)
     C = ctx.check
     maxes = [e for e in es if not any(e < f for f in es)]
